@@ -155,6 +155,22 @@ CLAIMED = {
         "relation-checked in C12, not here.",
         "DESIGN.md section 5, C10",
     ),
+    "C14": (
+        "Coq proofs by induction over statement lists and event histories about a hand-written executable state-machine "
+        "model of ActionSelection / routed mode; histories of block outcomes replayed on the implementation and compared in Coq",
+        "Theorems for bodies and histories of any length: every block - normal, exception before/after an ifmax, free-floating "
+        "routing, nested block, bad condition type, non-routing effect, failing build - ends with the three process-wide "
+        "switches at rest; every history of blocks, plain `>>` and stray ifmax calls ends at rest; a block's outcome (error "
+        "class, built flag, action names) is the same after any history as from the initial state; inside a block `>>` never "
+        "connects immediately, outside it always does; built implies no error; each misuse yields its documented error; "
+        "keys() yields one key per action in declaration order (name, else position) and lookups by position and by "
+        "(distinct) name return that action. Tie: exhaustive histories over 17 events to length 2 (thorough 3) + random "
+        "histories to length 12 with random bodies of up to 6 actions. One defect (keys of mixed named/unnamed actions) "
+        "found and repaired.",
+        "Trusted: Coq kernel; Model/ActionSel.v; networks are built, not simulated; the harness resets the three switches "
+        "after recording each event so that one residue cannot mask another.",
+        "DESIGN.md section 5, C14",
+    ),
 }
 
 NOT_YET = "not yet built in this revision of /verif (design in DESIGN.md section 5); no check is claimed"
